@@ -1493,6 +1493,13 @@ def slice_parts(eng, st, t, self_ty=None):
         v = eng.read(st, loc)
         if v[0] == "agg" and v[1] == "array":
             return loc, C(0, "usize"), C(len(v[5]), "usize")
+        m = re.match(r"^\[.*; (\w+)\]$", (self_ty or "").strip())
+        if m:
+            # array whose length is a const parameter
+            gen = getattr(st.frames[-1]["fn"], "generics", None) or []
+            if m.group(1) in gen:
+                return loc, C(0, "usize"), ("tyconst", "%s/#%d" % (m.group(1), gen.index(m.group(1))), "usize")
+            return loc, C(0, "usize"), ("len", t)
         return None
     if t[0] in ("param", "call", "okval", "someval", "getf", "init", "havoc"):
         return ("P", t), C(0, "usize"), ("len", t)
